@@ -22,6 +22,8 @@ type gen struct {
 	rng    *core.Rand
 	nextID int
 	budget int // remaining handlers + routes
+	nNamed int // named routes of the tree being drawn
+	minInv int // invoke handlers drawn now must name a route > minInv
 }
 
 func (g *gen) id() int { g.nextID++; return g.nextID }
@@ -117,6 +119,11 @@ func (g *gen) handlers(depth int, sh shape) []*handler {
 	for ; n > 0 && g.budget > 0; n-- {
 		g.budget--
 		x := g.rng.Intn(100)
+		if g.nNamed > 0 && g.minInv <= g.nNamed && g.rng.Chance(12, 100) {
+			// names minInv+1 … nNamed are defined, nNamed+1 is not
+			hs = append(hs, &handler{kind: 'i', arg: g.minInv + 1 + g.rng.Intn(g.nNamed+1-g.minInv)})
+			continue
+		}
 		switch {
 		case x < sh.subOdds && depth < 3:
 			h := &handler{kind: 's', routes: g.routes(depth+1, 3, sh)}
@@ -165,8 +172,12 @@ func (g *gen) routes(depth, max int, sh shape) []*route {
 	return rs
 }
 
-func (g *gen) tree(tier string) (rs []*route, hasErrs bool, errs []*route) {
+func (g *gen) tree(tier string) (rs []*route, hasErrs bool, errs []*route, named []*route) {
 	g.nextID = 0
+	g.nNamed, g.minInv = 0, 0
+	if g.rng.Chance(3, 10) {
+		g.nNamed = 1 + g.rng.Intn(3)
+	}
 	g.budget = 10 + g.rng.Intn(8)
 	if tier != "quick" {
 		g.budget = 10 + g.rng.Intn(40)
@@ -197,6 +208,15 @@ func (g *gen) tree(tier string) (rs []*route, hasErrs bool, errs []*route) {
 		hasErrs = true
 		g.budget += 6
 		errs = g.routes(0, 3, sh)
+	}
+	for j := 1; j <= g.nNamed; j++ {
+		g.minInv = j
+		g.budget = 4
+		one := g.routes(1, 1, sh)
+		if len(one) == 0 {
+			one = []*route{{hs: []*handler{{kind: 'p', id: g.id()}}}}
+		}
+		named = append(named, one[0])
 	}
 	return
 }
@@ -261,10 +281,10 @@ func (prop) Generate(rng *core.Rand, tier string, emit func(string)) {
 	}
 	g := &gen{rng: rng}
 	for c := 0; c < n; {
-		rs, hasErrs, errs := g.tree(tier)
+		rs, hasErrs, errs, named := g.tree(tier)
 		// a few requests per tree: the same routes seen from different hosts/paths/methods
 		for k := 1 + g.rng.Intn(3); k > 0 && c < n; k-- {
-			line := encCase(rs, hasErrs, errs, g.request())
+			line := encCase(rs, hasErrs, errs, g.request(), named)
 			if g.rng.Chance(1, 60) {
 				line = g.malformed(line)
 			}
@@ -291,9 +311,10 @@ type tcase struct {
 	hasErrs bool
 	errs    []*route
 	q       request
+	named   []*route
 }
 
-func (c tcase) line() string { return encCase(c.rs, c.hasErrs, c.errs, c.q) }
+func (c tcase) line() string { return encCase(c.rs, c.hasErrs, c.errs, c.q, c.named) }
 
 // evaluate runs one case on the real code and applies the oracles to what was observed.
 func evaluate(c tcase) (got observed, tags []string, fails []core.Failure, err error) {
@@ -305,29 +326,37 @@ func evaluate(c tcase) (got observed, tags []string, fails []core.Failure, err e
 			got = observed{panicked: true}
 		}
 	}()
-	rs, hasErrs, errs, q := c.rs, c.hasErrs, c.errs, c.q
+	rs, hasErrs, errs, q, named := c.rs, c.hasErrs, c.errs, c.q, c.named
+	// the oracle's reading of `invoke`: the named route, evaluated in place by the same rules
+	irs, ierrs := inlineNamed(named, rs), inlineNamed(named, errs)
 	// one server, three requests: the case's request, a different one, the case's request again
 	other := request{(q.method + 1) % 2, (q.host + 1) % 3, (q.path + 1 + int(fnv(c.line())%5)) % 6, (q.hdr + 1) % 3}
-	seq, err := serveSeq(rs, hasErrs, errs, []request{q, other, q})
+	seq, err := serveSeq(rs, hasErrs, errs, []request{q, other, q}, named)
 	if err != nil {
 		return
 	}
 	got = seq[2]
 
 	// ---- oracle 1: the documented routing rules, evaluated directly
-	want, tset := specEval(rs, hasErrs, errs, q)
+	want, tset := specEval(irs, hasErrs, ierrs, q)
 	for t := range tset {
 		tags = append(tags, t)
 	}
 	if len(got.events) == 0 && len(got.codes) == 0 {
 		tags = append(tags, "trivial")
 	}
-	ok := treeOk(rs, errs)
+	if len(named) > 0 {
+		tags = append(tags, "named-routes-defined")
+		if !invGt(len(named), rs) || !invGt(len(named), errs) || !invGt(len(named), named) {
+			tags = append(tags, "invoke:defined-name")
+		}
+	}
+	ok := treeOk(irs, ierrs)
 	if !ok {
 		tags = append(tags, "tree:failure-possible-behind-subroute-with-errors")
 	}
 	if class, what := diffClass(got, want); class != "" {
-		if !ok && canon(got) == canon(codeEval(rs, hasErrs, errs, q).observed()) {
+		if !ok && canon(got) == canon(codeEval(irs, hasErrs, ierrs, q).observed()) {
 			fails = append(fails, fail("subroute-errors-catch-failure-behind-subroute",
 				"an error raised BEHIND a subroute was diverted to that subroute's error routes and the rest of the chain ran again: "+what))
 		} else {
@@ -357,7 +386,7 @@ func evaluate(c tcase) (got observed, tags []string, fails []core.Failure, err e
 		fails = append(fails, fail("state-carried-between-requests",
 			fmt.Sprintf("the same request served twice by one server: first %s, then (after one other request) %s", canon(seq[0]), canon(seq[2]))))
 	}
-	if wantO, _ := specEval(rs, hasErrs, errs, other); treeOk(rs, errs) && canon(seq[1]) != canon(wantO.observed()) {
+	if wantO, _ := specEval(irs, hasErrs, ierrs, other); ok && canon(seq[1]) != canon(wantO.observed()) {
 		fails = append(fails, fail("rules:second-request",
 			fmt.Sprintf("request %d,%d,%d,%d served after the case's request on the same server: %s, the routing rules prescribe %s",
 				other.method, other.host, other.path, other.hdr, canon(seq[1]), canon(wantO.observed()))))
@@ -372,7 +401,7 @@ func evaluate(c tcase) (got observed, tags []string, fails []core.Failure, err e
 	// ---- oracle 2 (two-run relation): nesting follows the same rules — wrapping the whole
 	// primary route list into one matcher-less subroute must not change anything observable
 	wrapped := []*route{{hs: []*handler{{kind: 's', routes: rs}}}}
-	if got2, err := serveReal(wrapped, hasErrs, errs, q); err != nil || canon(got2) != canon(got) {
+	if got2, err := serveReal(wrapped, hasErrs, errs, q, named); err != nil || canon(got2) != canon(got) {
 		fails = append(fails, fail("subroute-wrap-changes-outcome",
 			fmt.Sprintf("the same routes inside one subroute give %s instead of %s (%v)", canon(got2), canon(got), err)))
 	}
@@ -381,7 +410,7 @@ func evaluate(c tcase) (got observed, tags []string, fails []core.Failure, err e
 	dead := &route{group: 1, terminal: true,
 		sets: [][]*matcher{{{kind: 'a', field: 1, vals: []int{(q.host + 1) % 3}}}},
 		hs:   []*handler{{kind: 'r', id: 999999, arg: 599}}}
-	if got3, err := serveReal(append([]*route{dead}, rs...), hasErrs, errs, q); err != nil || canon(got3) != canon(got) {
+	if got3, err := serveReal(append([]*route{dead}, rs...), hasErrs, errs, q, named); err != nil || canon(got3) != canon(got) {
 		fails = append(fails, fail("inapplicable-route-changes-outcome",
 			fmt.Sprintf("prepending a route whose host matcher does not match gives %s instead of %s (%v)", canon(got3), canon(got), err)))
 	}
@@ -393,8 +422,16 @@ var shrunk = map[string]int{}
 
 func (prop) Run(line string) (o core.Outcome) {
 	f := strings.Fields(line)
-	if len(f) != 3 {
+	if len(f) != 3 && len(f) != 4 {
 		return core.Outcome{Impl: "bad-op", Tags: []string{"trivial", "malformed"}}
+	}
+	var named []*route
+	if len(f) == 4 {
+		var okn bool
+		named, okn = parseRoutes(f[3])
+		if !okn || len(named) == 0 || !routesValid(named) || !namedValid(named) {
+			return core.Outcome{Impl: "bad-op", Tags: []string{"trivial", "malformed"}}
+		}
 	}
 	rs, ok1 := parseRoutes(f[0])
 	q, ok3 := parseReq(f[2])
@@ -406,7 +443,7 @@ func (prop) Run(line string) (o core.Outcome) {
 	if !ok1 || !ok2 || !ok3 || !routesValid(rs) || !routesValid(errs) {
 		return core.Outcome{Impl: "bad-op", Tags: []string{"trivial", "malformed"}}
 	}
-	c := tcase{rs, hasErrs, errs, q}
+	c := tcase{rs, hasErrs, errs, q, named}
 	got, tags, fails, err := evaluate(c)
 	if err != nil {
 		return core.Outcome{Impl: "harness-error", Tags: []string{"harness-error"},
